@@ -572,6 +572,95 @@ pub fn gen_num(r: &mut Rng) -> String {
     }
 }
 
+fn raw_key(k: &str, escaped: bool, r: &mut Rng) -> GS {
+    let chars: Vec<char> = k.chars().collect();
+    let spell = chars.iter().map(|_| if escaped { *r.pick(&[0u8, 0, 2, 3]) } else { 0 }).collect();
+    GS { chars, spell }
+}
+
+/// Objects aimed at the duplicate-key collapse: genuinely repeated keys (adjacent and far apart,
+/// 2…40 fields, escape-free or with `\uXXXX`-spelled occurrences of the same key) TOGETHER with
+/// families of *distinct* keys that share whatever a cheap discriminator could look at — same
+/// length and same first/last byte (differing only in the middle), same prefix, same suffix,
+/// case variants, the empty key — at several nesting levels.
+pub fn gen_collision(r: &mut Rng, depth: u32) -> G {
+    let letters = |r: &mut Rng, n: usize| -> String { (0..n).map(|_| (b'a' + r.below(26) as u8) as char).collect() };
+    let fam = r.below(6);
+    let pool_n = r.range(2, 8) as usize;
+    let mut pool: Vec<String> = Vec::new();
+    match fam {
+        0 => {
+            // same length, same first and last byte, different middle
+            let (f, l) = ((b'a' + r.below(26) as u8) as char, *r.pick(&['x', 'z', '_', 'e', '0']));
+            let m = r.range(1, 4) as usize;
+            for _ in 0..pool_n {
+                pool.push(format!("{f}{}{l}", letters(r, m)));
+            }
+        }
+        1 => {
+            for k in ["min_x", "max_x", "mid_x", "id", "mix_x", "min_y", "", "a"] {
+                pool.push(k.to_string());
+            }
+        }
+        2 => {
+            let base = letters(r, 3);
+            pool.extend([base.clone(), base.to_uppercase(), format!("{}{}", base[..1].to_uppercase(), &base[1..]), format!("{}{}", &base[..2], base[2..].to_uppercase())]);
+        }
+        3 => {
+            let pl = r.range(2, 6) as usize;
+            let pre = letters(r, pl);
+            for _ in 0..pool_n {
+                pool.push(format!("{pre}_{}", letters(r, 1)));
+            }
+        }
+        4 => {
+            let sl = r.range(2, 6) as usize;
+            let suf = letters(r, sl);
+            for _ in 0..pool_n {
+                pool.push(format!("{}_{suf}", letters(r, 1)));
+            }
+        }
+        _ => {
+            // two-byte and three-byte keys: everything but the middle byte agrees
+            let (f, l) = ((b'a' + r.below(26) as u8) as char, (b'a' + r.below(26) as u8) as char);
+            pool.extend([format!("{f}{l}"), format!("{f}a{l}"), format!("{f}b{l}"), format!("{f}{f}{l}"), String::new(), format!("{f}")]);
+        }
+    }
+    pool.dedup();
+    let escaped = r.chance(1, 3);
+    let n = *r.pick(&[2usize, 3, 4, 4, 5, 6, 8, 12, 16, 17, 24, 40]);
+    let mut keys: Vec<String> = Vec::new();
+    for i in 0..n {
+        let k = if i > 0 && r.chance(1, 6) { keys[i - 1].clone() } else { r.pick(&pool).clone() };
+        keys.push(k);
+    }
+    // a far-apart repetition of the first key, and an adjacent one
+    if r.chance(2, 3) {
+        keys.push(keys[0].clone());
+    }
+    if r.chance(1, 2) {
+        let k = r.pick(&pool).clone();
+        keys.push(k.clone());
+        keys.push(k);
+    }
+    let mut counter = 0i64;
+    let fs = keys
+        .iter()
+        .map(|k| {
+            counter += 1;
+            let v = if depth > 0 && r.chance(1, 6) {
+                gen_collision(r, depth - 1)
+            } else if depth > 0 && r.chance(1, 10) {
+                G::Arr(vec![gen_collision(r, depth - 1), G::Num(counter.to_string())])
+            } else {
+                G::Num(counter.to_string())
+            };
+            (raw_key(k, escaped, r), v)
+        })
+        .collect();
+    G::Obj(fs)
+}
+
 /// kind: 0 any, 1 container root, 2 object root
 pub fn gen_g(r: &mut Rng, depth: u32, budget: &mut i64, kind: u32) -> G {
     *budget -= 1;
@@ -594,6 +683,7 @@ pub fn gen_g(r: &mut Rng, depth: u32, budget: &mut i64, kind: u32) -> G {
             let n = if leaf { 0 } else { *r.pick(&[0u64, 1, 1, 2, 3, 3, 5, 9]) };
             G::Arr((0..n).map(|_| gen_g(r, depth.saturating_sub(1), budget, 0)).collect())
         }
+        _ if !leaf && r.chance(1, 5) => gen_collision(r, depth.min(2)),
         _ => {
             let n = if leaf { 0 } else { *r.pick(&[0u64, 1, 2, 2, 3, 4, 6, 18]) };
             G::Obj((0..n).map(|_| (gen_key(r), gen_g(r, depth.saturating_sub(1), budget, 0))).collect())
@@ -1135,6 +1225,39 @@ pub fn gen(tier: Tier, r: &mut Rng, emit: &mut dyn FnMut(String)) {
             gs.push(g);
         }
         emit(request(r, &c, &gs));
+    }
+    // duplicate keys together with near-collision key families, on every route: the lazy cursor
+    // printer's own collapse (`collapse_duplicate_fields`), the owned and the materialised printers
+    let coll_flags: &[&str] =
+        if tier == Tier::Quick { &["-", "c", "tab", "i0", "r", "S", "a", "c,P", "seq"] } else { &["-", "c", "tab", "i0", "i3", "i7", "r", "z", "S", "a", "c,S", "c,a", "c,P", "P", "seq", "c,seq"] };
+    let rounds = if tier == Tier::Quick { 1 } else { 60 };
+    for round in 0..rounds {
+        for (i, flags) in coll_flags.iter().enumerate() {
+            let prog = PROGS[(i + round) % PROGS.len()];
+            let gs: Vec<G> = (0..r.range(8, 14))
+                .map(|_| {
+                    let g = gen_collision(r, 2);
+                    match r.below(4) {
+                        0 => G::Arr(vec![g, gen_collision(r, 1)]),
+                        1 => G::Obj(vec![(raw_key("a", false, r), g), (raw_key("b", false, r), gen_collision(r, 1))]),
+                        _ => g,
+                    }
+                })
+                .collect();
+            let mut docs = Vec::new();
+            let mut digs = Vec::new();
+            for g in &gs {
+                let mut text = Vec::new();
+                let ws = r.chance(1, 3);
+                write_g(g, r, ws, &mut text);
+                docs.push(hex_bytes(&text));
+                digs.push(match expected(prog, &g_to_j(g)) {
+                    Some(rs) => rs.iter().map(|x| format!("{:016x}", digest(x))).collect::<Vec<_>>().join("."),
+                    None => "!".into(),
+                });
+            }
+            emit(format!("C11 jq {flags} {} {} {} {}", hex_bytes(prog.as_bytes()), nums_table(&gs), digs.join(","), docs.join(",")));
+        }
     }
     // --seq with documents nested deeper than the strict validator's limit (pure arrays, no gaps):
     // regression class of the repaired finding C11-seq-depth
